@@ -1,30 +1,147 @@
-(** V.C08.Props — the property theorems of C08 (statements only; proofs in Proofs*.v).
-    For every finite event-level CFG [g] that is well formed ([wf_ecfg]: successor indices are
-    blocks, the entry block has no predecessor — checked by the harness for every CFG of the
-    real builder), every typing [E0] of the inputs, every set [glob] of global names and every
-    pair of work-list schedules [s1 s2] of the two dataflow analyses. *)
-From Coq Require Import List Bool Arith.
+(** V.C08.Props — the property theorems of C08 (statements; proofs in Proofs*.v).
+
+    Quantification: every finite CFG [g] of per-block ordered variable events (arbitrary real
+    and dummy successor lists, loops, unreachable blocks) that is well formed ([wf_ecfg]: at
+    least the entry block, successor indices are blocks, the entry block has no predecessor —
+    checked by the harness on every CFG the real builder produces), every typing [E0] of the
+    inputs (parameters and captured variables), every set [glob] of global names, and every
+    pair of work-list schedules [s1 s2] of the two dataflow analyses (C09).
+    [check_cfg] is the executable model of check_cfg / check_bb / check_rows_match
+    (CfgCheck.v) of the code after fix-1.patch; the specification side (Spec.v: [undef_use],
+    [ty_conflict], [reach_nodef], [reach_env], [live_at]) talks about paths only. *)
+From Coq Require Import List Bool Arith Lia.
 From V.C09 Require Import Analysis Spec.
-From V.C08 Require Import CfgCheck Spec ProofsBase ProofsCheck.
+From V.C08 Require Import CfgCheck Spec ProofsBase ProofsCheck ProofsExact ProofsClosed ProofsTop.
 Import ListNotations.
 
-(** [undef_sound]: whatever undefined-variable error check_cfg raises, and whichever of the
-    candidate (wording, variable, use) triples the user is shown, the variable is one the checker
-    must find in scope, and that use of it is reached from the entry by a path (real or dummy
-    edges, predicate values ignored) on which it is never assigned. *)
-Theorem undef_sound_sites : forall g E0 glob s1 s2 e, wf_ecfg g ->
+Notation facts_of g E0 glob s1 s2 := (analyze g (keys E0) glob s1 s2).
+
+(** compute_variable_stats: `used` = the names read before any assignment of the block,
+    `assigned` = the names assigned in the block. *)
+Theorem stats_exact : forall evs x,
+  (In x (used_of evs) <-> reads_first x evs) /\ (In x (assigned_of evs) <-> assigns x evs).
+Proof. intros. split; [apply used_char|apply assigned_char]. Qed.
+Print Assumptions stats_exact.
+
+(** [undef_exact], program level: the model raises a not-defined / maybe-not-defined error
+    iff some path (real or dummy edges, predicate values ignored) from the entry reaches a
+    read of a variable that must be in scope without assigning it.  Such an error is always
+    raised by the tests of the ENTRY block, before any type comparison: a program with an
+    undefined use is never reported as a type error instead. *)
+Theorem undef_exact : forall g E0 glob s1 s2, wf_ecfg g ->
+  ((exists x u, needs_def (facts_of g E0 glob s1 s2) x = true /\ undef_use g E0 x u) <->
+   (exists e, check_cfg g E0 glob s1 s2 = Rej e /\ is_undef e)).
+Proof. intros. apply undef_exact_lemma; auto. Qed.
+Print Assumptions undef_exact.
+
+(** [undef_exact], variable level: the set of ALL variables rejected by the entry block's
+    tests (the error names one of them) is exactly the set of variables with such a path. *)
+Theorem undef_vars_exact : forall g E0 glob s1 s2 x, wf_ecfg g ->
+  (In x (undef_vars g (facts_of g E0 glob s1 s2) E0) <->
+   needs_def (facts_of g E0 glob s1 s2) x = true /\ exists u, undef_use g E0 x u).
+Proof. intros. apply undef_vars_char; auto. Qed.
+Print Assumptions undef_vars_exact.
+
+(** [undef_sound], per report: whichever candidate (wording, variable, block of the reported
+    use) the user is shown, that use is reached without an assignment, and the wording is
+    "might be undefined" (VarMaybeNotDefinedError) iff some path into the reported use
+    assigns the variable (C09's [assigned_before]); otherwise "is not defined". *)
+Theorem undef_sound : forall g E0 glob s1 s2 e k x u, wf_ecfg g ->
   check_cfg g E0 glob s1 s2 = Rej e ->
-  match e with
-  | EntryUndef x => needs_def (analyze g (keys E0) glob s1 s2) x = true /\ undef_use g E0 x 0
-  | SuccUndef p s xs => xs <> [] /\ forall x, In x xs ->
-      needs_def (analyze g (keys E0) glob s1 s2) x = true /\
-      lookup x E0 = None /\ reach_nodef g x s /\ live_at g x s
-  | RowMismatch p s xs => xs <> [] /\ forall x, In x xs -> ty_conflict g E0 x s
-  | RowKeyError _ _ => False
-  | OutOfFuel => True
-  end.
+  In (k, x, u) (report_cands g (facts_of g E0 glob s1 s2) e) ->
+  needs_def (facts_of g E0 glob s1 s2) x = true /\ undef_use g E0 x u /\
+  (k = true <-> assigned_before (to_cfg g) (keys E0) x u).
+Proof. intros g E0 glob s1 s2 e k x u W. apply report_cands_sound; auto. Qed.
+Print Assumptions undef_sound.
+
+(** [branch_type_exact]: when no use is undefined, check_rows_match fails iff some variable
+    that is read after a join holds different types along two type-propagating paths into
+    it; and every variable it may name is such a variable at that join. *)
+Theorem branch_type_exact : forall g E0 glob s1 s2, wf_ecfg g ->
+  ~ (exists x u, needs_def (facts_of g E0 glob s1 s2) x = true /\ undef_use g E0 x u) ->
+  ((exists x s, ty_conflict g E0 x s) <->
+   (exists p s xs, check_cfg g E0 glob s1 s2 = Rej (RowMismatch p s xs) /\ xs <> [])).
+Proof. intros. apply branch_type_exact_lemma; auto. Qed.
+Print Assumptions branch_type_exact.
+
+Theorem branch_type_sound : forall g E0 glob s1 s2 p s xs, wf_ecfg g ->
+  check_cfg g E0 glob s1 s2 = Rej (RowMismatch p s xs) ->
+  xs <> [] /\ forall x, In x xs -> ty_conflict g E0 x s.
+Proof. intros g E0 glob s1 s2 p s xs W H. apply (check_cfg_sound g E0 glob s1 s2 W _ H). Qed.
+Print Assumptions branch_type_sound.
+
+(** [no_spurious] (and its converse): the CFG is accepted by these tests iff it is free of
+    both problems.  In particular the model never runs out of fuel and check_rows_match never
+    raises KeyError. *)
+Theorem no_spurious : forall g E0 glob s1 s2, wf_ecfg g ->
+  ((exists c, check_cfg g E0 glob s1 s2 = Ok c) <->
+   (~ (exists x u, needs_def (facts_of g E0 glob s1 s2) x = true /\ undef_use g E0 x u) /\
+    ~ (exists x s, ty_conflict g E0 x s))).
+Proof. intros. apply accept_iff_lemma; auto. Qed.
+Print Assumptions no_spurious.
+
+Theorem check_total : forall g E0 glob s1 s2 p s, wf_ecfg g ->
+  check_cfg g E0 glob s1 s2 <> Rej OutOfFuel /\ check_cfg g E0 glob s1 s2 <> Rej (RowKeyError p s).
 Proof.
-  intros g E0 glob s1 s2 e W H. pose proof (check_cfg_sound g E0 glob s1 s2 W e H) as K.
-  destruct e; simpl in *; tauto.
+  intros g E0 glob s1 s2 p s W. split; [apply check_cfg_not_fuel; auto|].
+  intros H. apply (check_cfg_sound g E0 glob s1 s2 W _ H).
 Qed.
-Print Assumptions undef_sound_sites.
+Print Assumptions check_total.
+
+(** * the hypotheses are satisfiable: three small programs (variables c=0 x=1 y=2; types bool=1 int=2 float=3) *)
+Lemma wf_by_cases : forall g, 0 < length g ->
+  forallb (fun b => forallb (fun s => (s <? length g) && negb (s =? 0)) (flow_s g b)) (seq 0 (length g)) = true ->
+  wf_ecfg g.
+Proof.
+  intros g H0 H. rewrite forallb_forall in H. split; auto. split.
+  - intros b s Hb Hs. assert (I : In b (seq 0 (length g))) by (apply in_seq; unfold nb in Hb; lia).
+    specialize (H b I). rewrite forallb_forall in H. specialize (H s Hs).
+    apply andb_true_iff in H. destruct H as [H _]. apply Nat.ltb_lt in H. exact H.
+  - intros p Hp Hs. assert (I : In p (seq 0 (length g))) by (apply in_seq; unfold nb in Hp; lia).
+    specialize (H p I). rewrite forallb_forall in H. specialize (H 0 Hs).
+    apply andb_true_iff in H. destruct H as [_ H]. discriminate.
+Qed.
+
+(* if c: x = 1 ; <join> read x        -> "x might be undefined" *)
+Definition ex_undef : ecfg :=
+  [mkEB [3; 2] [] [EUse 0]; mkEB [] [] []; mkEB [4] [] [EAssign 1 (RLit 2)]; mkEB [4] [] [];
+   mkEB [1] [] [EUse 1]].
+(* if c: x = 1 else: x = 1.0 ; <join> y = x     -> "x may refer to different types" *)
+Definition ex_types : ecfg :=
+  [mkEB [3; 2] [] [EUse 0]; mkEB [] [] []; mkEB [4] [] [EAssign 1 (RLit 2)];
+   mkEB [4] [] [EAssign 1 (RLit 3)]; mkEB [1] [] [EAssign 2 (RCopy 1)]].
+(* x = 1 ; while c: x = x + 1 ; read x ; plus dead code after the return reading x (dummy edge)  -> accepted *)
+Definition ex_loop : ecfg :=
+  [mkEB [2] [] [EAssign 1 (RLit 2)]; mkEB [] [] []; mkEB [4; 3] [] [EUse 0];
+   mkEB [2] [] [EAssign 1 (RCopy 1)]; mkEB [1] [5] [EUse 1]; mkEB [] [] [EUse 1]].
+
+Example ex_undef_rejected :
+  wf_ecfg ex_undef /\
+  check_cfg ex_undef [(0, 1)] [] [] [] = Rej (SuccUndef 0 3 [1]) /\
+  report_cands ex_undef (facts_of ex_undef [(0, 1)] [] [] []) (SuccUndef 0 3 [1]) = [(true, 1, 4)] /\
+  undef_use ex_undef [(0, 1)] 1 4.
+Proof.
+  assert (W : wf_ecfg ex_undef) by (apply wf_by_cases; [simpl; lia|vm_compute; reflexivity]).
+  assert (H : check_cfg ex_undef [(0, 1)] [] [] [] = Rej (SuccUndef 0 3 [1])) by (vm_compute; reflexivity).
+  split; auto. split; auto. split; [vm_compute; reflexivity|].
+  apply (undef_sound ex_undef [(0, 1)] [] [] [] _ true 1 4 W H). vm_compute. auto.
+Qed.
+
+Example ex_types_rejected :
+  wf_ecfg ex_types /\ check_cfg ex_types [(0, 1)] [] [] [] = Rej (RowMismatch 3 4 [1; 1]) /\
+  ty_conflict ex_types [(0, 1)] 1 4.
+Proof.
+  assert (W : wf_ecfg ex_types) by (apply wf_by_cases; [simpl; lia|vm_compute; reflexivity]).
+  assert (H : check_cfg ex_types [(0, 1)] [] [] [] = Rej (RowMismatch 3 4 [1; 1])) by (vm_compute; reflexivity).
+  split; auto. split; auto.
+  apply (branch_type_sound ex_types [(0, 1)] [] [] [] 3 4 [1; 1] W H). simpl. auto.
+Qed.
+
+Example ex_loop_accepted :
+  wf_ecfg ex_loop /\ (exists c, check_cfg ex_loop [(0, 1)] [] [] [] = Ok c) /\
+  ~ (exists x s, ty_conflict ex_loop [(0, 1)] x s).
+Proof.
+  assert (W : wf_ecfg ex_loop) by (apply wf_by_cases; [simpl; lia|vm_compute; reflexivity]).
+  assert (H : exists c, check_cfg ex_loop [(0, 1)] [] [] [] = Ok c) by (eexists; vm_compute; reflexivity).
+  split; auto. split; auto. apply (no_spurious ex_loop [(0, 1)] [] [] [] W). exact H.
+Qed.
